@@ -1229,3 +1229,248 @@ def tv_rgb_to_grayscale(interp, img, num_output_channels=1):
     shape = list(img.shape)
     shape[k] = num_output_channels
     return T.from_fn(shape, FLOAT, fn, kind=img.kind)
+
+
+# ---------------------------------------------------------------------------------------
+# torch.nn layers: SHAPE contracts (C14).  A layer object checks what the real layer checks
+# about its input (rank, channel count) and returns a tensor of the documented output shape
+# whose elements are unspecified finite values (a fresh function per call): nothing about the
+# values is claimed.  Formulas: torch.nn documentation of each layer.
+
+class NNLayer:
+    __pyvc_native__ = True
+    training = False
+
+    def __pyvc_getattr__(self, interp, name):
+        if name in ("eval", "train", "to", "cpu", "cuda", "float", "requires_grad_"):
+            return lambda *a, **k: self
+        if name in ("children", "modules"):
+            return lambda: list(getattr(self, "_children", []))
+        if name == "parameters":
+            return lambda: []
+        try:
+            return object.__getattribute__(self, name)
+        except AttributeError as e:
+            raise PyExc("AttributeError", e.args)
+
+    def _out(self, shape, like):
+        nm = V.fresh_name("layer")
+        r = len(shape)
+        f = z3.Function(nm, *([z3.IntSort()] * r + [z3.RealSort()]))
+        return STensor(list(shape), FLOAT, fn=lambda idx: V.finite_real(f(*[V.zint(i) for i in idx])), kind="torch")
+
+
+def _pair(v):
+    if isinstance(v, (tuple, list)):
+        return tuple(v)
+    return (v, v)
+
+
+def _need_channels(interp, x, n, what):
+    if not isinstance(x, STensor) or x.rank not in (3, 4):
+        raise PyExc("RuntimeError", ("Expected 3D (unbatched) or 4D (batched) input to %s" % what,))
+    ch = x.shape[-3]
+    e = T.dims_equal(ch, n)
+    if e is False:
+        raise PyExc("RuntimeError", ("%s: expected input with %s channels, but got %s channels instead" % (what, n, ch),))
+    if e is None:
+        interp.path.require(V.i_eq(ch, n), "RuntimeError", "%s: channel mismatch" % what)
+
+
+class Conv2dLayer(NNLayer):
+    def __init__(self, interp, in_channels, out_channels, kernel_size, stride=1, padding=0, dilation=1, groups=1, bias=True, padding_mode="zeros", device=None, dtype=None):
+        self.interp = interp
+        self.in_channels, self.out_channels = in_channels, out_channels
+        self.kernel_size, self.stride, self.dilation = _pair(kernel_size), _pair(stride), _pair(dilation)
+        self.padding = padding
+        if groups != 1:
+            raise Unsupported("grouped convolution")
+        if not (isinstance(in_channels, int) and isinstance(out_channels, int) and in_channels > 0 and out_channels > 0):
+            raise PyExc("ValueError" if isinstance(in_channels, int) and isinstance(out_channels, int) else "TypeError", ("in_channels / out_channels must be positive integers",))
+        if padding == "same" and self.stride != (1, 1):
+            raise PyExc("ValueError", ("padding='same' is not supported for strided convolutions",))
+
+    def __call__(self, x):
+        _need_channels(self.interp, x, self.in_channels, "conv2d")
+        H, W = x.shape[-2], x.shape[-1]
+        if self.padding == "same":
+            oh, ow = H, W
+        else:
+            ph, pw = _pair(0 if self.padding == "valid" else self.padding)
+            dims = []
+            for d, p, k, s, dl in ((H, ph, self.kernel_size[0], self.stride[0], self.dilation[0]), (W, pw, self.kernel_size[1], self.stride[1], self.dilation[1])):
+                num = V.i_sub(V.i_add(d, 2 * p), dl * (k - 1) + 1)
+                self.interp.path.require(V.i_le(0, num), "RuntimeError", "Kernel size can't be greater than actual input size")
+                dims.append(V.simplify_scalar(V.i_add(V.i_floordiv(num, s), 1)))
+            oh, ow = dims
+        return self._out(list(x.shape[:-3]) + [self.out_channels, oh, ow], x)
+
+
+class ConvTranspose2dLayer(NNLayer):
+    def __init__(self, interp, in_channels, out_channels, kernel_size, stride=1, padding=0, output_padding=0, groups=1, bias=True, dilation=1, padding_mode="zeros", device=None, dtype=None):
+        self.interp = interp
+        self.in_channels, self.out_channels = in_channels, out_channels
+        self.kernel_size, self.stride, self.padding, self.output_padding, self.dilation = _pair(kernel_size), _pair(stride), _pair(padding), _pair(output_padding), _pair(dilation)
+        if not (isinstance(in_channels, int) and isinstance(out_channels, int) and in_channels > 0 and out_channels > 0):
+            raise PyExc("TypeError", ("in_channels / out_channels must be positive integers",))
+
+    def __call__(self, x):
+        _need_channels(self.interp, x, self.in_channels, "conv_transpose2d")
+        dims = []
+        for d, k, s, p, op, dl in zip((x.shape[-2], x.shape[-1]), self.kernel_size, self.stride, self.padding, self.output_padding, self.dilation):
+            dims.append(V.simplify_scalar(V.i_add(V.i_sub(V.i_mul(V.i_sub(d, 1), s), 2 * p), dl * (k - 1) + op + 1)))
+        return self._out(list(x.shape[:-3]) + [self.out_channels] + dims, x)
+
+
+class BatchNorm2dLayer(NNLayer):
+    def __init__(self, interp, num_features, eps=1e-5, momentum=0.1, affine=True, track_running_stats=True, device=None, dtype=None):
+        self.interp, self.num_features = interp, num_features
+
+    def __call__(self, x):
+        if not isinstance(x, STensor) or x.rank != 4:
+            raise PyExc("ValueError", ("expected 4D input",))
+        _need_channels(self.interp, x, self.num_features, "batch_norm")
+        return self._out(list(x.shape), x)
+
+
+class PointwiseLayer(NNLayer):
+    def __init__(self, interp, *a, **k):
+        self.interp = interp
+
+    def __call__(self, x):
+        return self._out(list(x.shape), x)
+
+
+class IdentityLayer(NNLayer):
+    def __init__(self, interp, *a, **k):
+        self.interp = interp
+
+    def __call__(self, x):
+        return x
+
+
+class UpsampleLayer(NNLayer):
+    def __init__(self, interp, size=None, scale_factor=None, mode="nearest", align_corners=None, recompute_scale_factor=None):
+        self.interp, self.size, self.scale_factor, self.mode = interp, size, scale_factor, mode
+        if size is not None or scale_factor is None:
+            raise Unsupported("nn.Upsample with an explicit size")
+
+    def __call__(self, x):
+        if not isinstance(x, STensor) or x.rank != 4:
+            raise PyExc("ValueError", ("Upsample(mode=%r) expects a 4D input" % self.mode,))
+        sh, sw = _pair(self.scale_factor)
+        dims = []
+        for d, s in ((x.shape[-2], sh), (x.shape[-1], sw)):
+            if isinstance(s, float) and s == int(s):
+                s = int(s)
+            if not isinstance(s, int):
+                raise Unsupported("non-integer upsampling factor")
+            dims.append(V.simplify_scalar(V.i_mul(d, s)))      # floor(d * s) for an integer factor
+        return self._out(list(x.shape[:-2]) + dims, x)
+
+
+class SequentialLayer(NNLayer):
+    def __init__(self, interp, *layers):
+        self.interp = interp
+        if len(layers) == 1 and isinstance(layers[0], dict):
+            layers = list(layers[0].values())
+        self.layers = list(layers)
+        self._children = self.layers
+
+    def __call__(self, x):
+        for l in self.layers:
+            x = self.interp.call(l, [x], {})
+        return x
+
+    def __pyvc_iter__(self, interp):
+        return list(self.layers)
+
+    def __pyvc_len__(self, interp):
+        return len(self.layers)
+
+    def __pyvc_getitem__(self, interp, i):
+        return self.layers[i] if isinstance(i, int) else SequentialLayer(interp, *self.layers[i])
+
+
+class ModuleListLayer(NNLayer):
+    def __init__(self, interp, modules=None):
+        self.interp = interp
+        self.layers = list(modules) if modules is not None else []
+        self._children = self.layers
+
+    def __pyvc_getattr__(self, interp, name):
+        if name == "append":
+            return lambda m: (self.layers.append(m), self)[1]
+        if name == "extend":
+            return lambda ms: (self.layers.extend(list(ms)), self)[1]
+        if name == "insert":
+            return lambda i, m: self.layers.insert(i, m)
+        return NNLayer.__pyvc_getattr__(self, interp, name)
+
+    def __pyvc_iter__(self, interp):
+        return list(self.layers)
+
+    def __pyvc_len__(self, interp):
+        return len(self.layers)
+
+    def __pyvc_getitem__(self, interp, i):
+        if isinstance(i, int):
+            try:
+                return self.layers[i]
+            except IndexError as e:
+                raise PyExc("IndexError", e.args)
+        return ModuleListLayer(interp, self.layers[i])
+
+
+def _reg_layer(names, cls):
+    def ctor(interp, *a, **k):
+        return cls(interp, *a, **k)
+
+    for n in names:
+        LIB[n] = ctor
+
+
+_reg_layer(["torch.nn.Conv2d"], Conv2dLayer)
+_reg_layer(["torch.nn.ConvTranspose2d"], ConvTranspose2dLayer)
+_reg_layer(["torch.nn.BatchNorm2d"], BatchNorm2dLayer)
+_reg_layer(["torch.nn.ReLU", "torch.nn.Sigmoid", "torch.nn.Tanh", "torch.nn.Softmax", "torch.nn.GELU", "torch.nn.LeakyReLU", "torch.nn.Dropout"], PointwiseLayer)
+_reg_layer(["torch.nn.Identity"], IdentityLayer)
+_reg_layer(["torch.nn.Upsample"], UpsampleLayer)
+_reg_layer(["torch.nn.Sequential"], SequentialLayer)
+_reg_layer(["torch.nn.ModuleList"], ModuleListLayer)
+
+
+@lib("torch.nn.MaxPool2d.__init__")
+def nn_maxpool2d_init(interp, obj, kernel_size, stride=None, padding=0, dilation=1, return_indices=False, ceil_mode=False):
+    obj.attrs.update(kernel_size=kernel_size, stride=(stride if stride is not None else kernel_size), padding=padding, dilation=dilation,
+                     return_indices=return_indices, ceil_mode=ceil_mode)
+
+
+@lib("torch.nn.Module.__init__")
+def nn_module_init(interp, obj, *a, **k):
+    obj.attrs.setdefault("training", True)
+
+
+@lib("torch.nn.Module.eval")
+def nn_module_eval(interp, obj):
+    obj.attrs["training"] = False
+    return obj
+
+
+@lib("torch.ceil", "numpy.ceil")
+def torch_ceil(interp, x):
+    """ceil(x) = -floor(-x); NaN / inf pass through."""
+    if not isinstance(x, STensor):
+        return V.f_neg(V.f_floor(V.f_neg(x)))
+    if x.dtype != FLOAT:
+        return x
+    return T.tunary(lambda v: V.f_neg(V.f_floor(V.f_neg(v))), x)
+
+
+@lib("torch.floor", "numpy.floor")
+def torch_floor(interp, x):
+    if not isinstance(x, STensor):
+        return V.f_floor(x)
+    if x.dtype != FLOAT:
+        return x
+    return T.tunary(V.f_floor, x)
